@@ -229,17 +229,23 @@ func buildDeactivated(t *rapid.T, pool string) (*chain, []*hist.Anchored) {
 }
 
 func TestDeactivateTerminal(t *testing.T) {
-	ev.Rule(chkDeact, "rapid: prefix = create + 0-5 valid updates/recovers + valid deactivate D (all key types, both hash algorithms); extension = 1-12 operations anchored strictly after D at drawn coordinates: valid updates/recovers/deactivates signed with every key that was ever revealed or committed in the prefix, duplicate creates (same/other delta), forgeries; oracle: Resolve = deactivated, empty document, no commitments; non-trivial = the extension holds >= 1 validly signed non-create operation")
+	ev.Rule(chkDeact, "rapid: prefix = create + 0-5 valid updates/recovers + valid deactivate D (all key types, both hash algorithms); extension = 1-12 operations anchored strictly after D at drawn coordinates, the last 0-2 of them pending (unpublished) with a wall-clock stamp after or before the ledger times: valid updates/recovers/deactivates signed with every key that was ever revealed or committed in the prefix, duplicate creates (same/other delta), forgeries; oracle: Resolve = deactivated, empty document, no commitments; non-trivial = the extension holds >= 1 validly signed non-create operation")
 	ev.Rapid(t, chkDeact, 400, 4000, func(t *rapid.T) {
 		ch, prefix := buildDeactivated(t, "c04d")
 		ext := ch.extension(t)
 		perm := gen.Perm(t, len(ext), "extOrder")
 		h := append([]*hist.Anchored{}, prefix...)
 		base := uint64(20 + len(prefix))
-		unpub := rapid.IntRange(0, 5).Draw(t, "unpublishedExt") == 0
+		// some operations of the extension are pending (unpublished) instead of anchored; their wall-clock stamp may
+		// lie after or before the ledger times of the prefix (requested before the deactivate was anchored)
+		nUnpub := rapid.SampledFrom([]int{0, 0, 0, 1, 2}).Draw(t, "unpublishedExt")
 		for i, op := range ext {
-			if unpub && i == len(ext)-1 {
-				h = append(h, op.At(100000, 0, "", 0))
+			if i >= len(ext)-nUnpub {
+				ut := uint64(100000 + i)
+				if rapid.Bool().Draw(t, "earlyStamp") {
+					ut = uint64(rapid.IntRange(0, 25).Draw(t, "earlyTime"))
+				}
+				h = append(h, op.At(ut, 0, "", 0))
 				continue
 			}
 			h = append(h, op.At(base+uint64(perm[i]/2), uint64(perm[i]), fmt.Sprintf("ref-x%d", i), 0))
